@@ -102,6 +102,41 @@ def scenarios(mod, rng):
     return S
 
 
+def neighbour_histories(mod, rng, quick):
+    """Every history of 3 calls (and all / a sample of those of 4 calls) over a
+    small alphabet of neighbouring parameter sets of one module: stale-key
+    defects typically need a specific 3-4 step order (A, B, B', A') that random
+    long histories rarely hit."""
+    import itertools
+    sd = lambda: int(rng.integers(1 << 30))      # noqa
+    if mod == 'basex':
+        base = dict(reg=0, corr=True, dr=0, n=8, bd=None)
+        alpha = [dict(base, sig=sg, direction=d) for sg in (0, 1) for d in ('inverse', 'forward')]
+    elif mod == 'dasch':
+        alpha = [dict(meth=me, n=n, bd=1, dr=1.0) for me in (1, 2) for n in (6, 9)]
+    elif mod == 'daun':
+        base = dict(reg=None, dr=1.0, n=6, bd=1)
+        alpha = [dict(base, degree=dg, direction=d) for dg in (0, 1) for d in ('inverse', 'forward')]
+    elif mod == 'linbasex':
+        base = dict(n=11, step=1, clip=0, bd=None)
+        alpha = [dict(base, orders=o, angles=a) for o in ([0, 2], [0, 2, 4]) for a in ([0, 202], [0, 102, 202])]
+    else:   # rbasex
+        base = dict(shape=0, origin=0, rmax=0, odd=False, wid=0, reg=0, out=0, bd=None)
+        alpha = [dict(base, order=o, direction=d) for o in (2, 4) for d in ('inverse', 'forward')]
+    out = [list(t) for t in itertools.product(range(len(alpha)), repeat=3)]
+    four = [list(t) for t in itertools.product(range(len(alpha)), repeat=4)]
+    if quick:
+        idx = rng.choice(len(four), size=48, replace=False)
+        four = [four[i] for i in idx]
+        # the alternating patterns A B A' B' / A B B' A' over pairs of symbols are always included
+        for a in range(len(alpha)):
+            for b in range(len(alpha)):
+                if a != b:
+                    four.append([a, b, a, b])
+    out += four
+    return [[('call', dict(alpha[i], seed=sd())) for i in h] for h in out]
+
+
 # --------------------------------------------------------------------------
 # which finding does a (shrunk) failing history show?
 # --------------------------------------------------------------------------
@@ -217,7 +252,7 @@ def run(ctx):
         for mod in MODS:
             ad = H.ADAPTERS[mod](env)
             hists = []
-            for ops in scenarios(mod, rng):
+            for ops in scenarios(mod, rng) + neighbour_histories(mod, rng, ctx.quick):
                 hists.append(H.run_history(ad, worker, ops))
             for i in range(nh):
                 ln = int(rng.integers(4, L + 1))
